@@ -485,6 +485,36 @@ fn check_deque_out(c: &VCase, obs: &mut Obs) -> CheckResult {
             Some(v) if v == want && calls.get() == len as i32 => {},
             other => return fail(format!("second_longer:{}:output", name), format!("{} (len {}, second series {} longer, w {}) returned {:?} after {} calls, expected {:?}", name, len, c.step, w, other, calls.get(), want)),
         }
+        // the same with an ndarray first series (owned, and a strided view of a longer parent), into a Vec
+        // and into an ndarray result
+        if c.drv != 5 {
+            let owned = Array1::from_vec(x.clone());
+            let parent = Array1::from_iter(x.iter().flat_map(|v| [*v, -5]));
+            let view = parent.slice(s![..;2]);
+            for kind in 0..4 {
+                calls.set(0);
+                let r: Option<Vec<i32>> = match (c.drv, kind) {
+                    (2, 0) => owned.rolling2_apply::<Vec<i32>, i32, _, _, _>(&y, w, |_, _| tok(), None),
+                    (2, 1) => view.rolling2_apply::<Vec<i32>, i32, _, _, _>(&y, w, |_, _| tok(), None),
+                    (2, 2) => owned.rolling2_apply::<Array1<i32>, i32, _, _, _>(&y, w, |_, _| tok(), None).map(|a| a.to_vec()),
+                    (2, _) => view.rolling2_apply::<Array1<i32>, i32, _, _, _>(&y, w, |_, _| tok(), None).map(|a| a.to_vec()),
+                    (_, 0) => owned.rolling2_apply_idx::<Vec<i32>, i32, _, _, _>(&y, w, |_, _, _| tok(), None),
+                    (_, 1) => view.rolling2_apply_idx::<Vec<i32>, i32, _, _, _>(&y, w, |_, _, _| tok(), None),
+                    (_, 2) => owned.rolling2_apply_idx::<Array1<i32>, i32, _, _, _>(&y, w, |_, _, _| tok(), None).map(|a| a.to_vec()),
+                    (_, _) => view.rolling2_apply_idx::<Array1<i32>, i32, _, _, _>(&y, w, |_, _, _| tok(), None).map(|a| a.to_vec()),
+                };
+                match r {
+                    Some(v) if v.len() == len && v == want && calls.get() == len as i32 => {},
+                    other => {
+                        let shown = other.map(|v| (v.len(), v.into_iter().take(len).collect::<Vec<i32>>()));
+                        return fail(
+                            format!("second_longer:{}:ndarray-first:output", name),
+                            format!("{} on an ndarray first series ({}; len {}, second series {} longer, w {}) returned (length, leading part) {:?} after {} calls, expected {:?}", name, ["owned -> Vec", "strided view -> Vec", "owned -> Array1", "strided view -> Array1"][kind], len, c.step, w, shown, calls.get(), want),
+                        );
+                    },
+                }
+            }
+        }
         let r: Option<Vec<i32>> = x.rolling2_custom::<Vec<i32>, i32, _, _, _>(&y, w, |a: &[i32], b: &[i32]| if a.len() == b.len() { tok() } else { -1 - tok() }, None);
         calls.set(0);
         if r.as_ref() != Some(&(len as i32..2 * len as i32).collect::<Vec<i32>>()) && r.as_ref() != Some(&want) {
